@@ -1384,6 +1384,7 @@ const OPT_TEMPLATES: &[(Wrap, &[Seg])] = &[
     (Wrap::Decl, &[A(&["constant k : t :=", "signal s : t :=", "variable v : t :=", "attribute at of x : signal is"]), F("0 when c"), O("else 1 when d"), O("else 2"), F(";")]),
     (Wrap::Seq, &[O("lbl :"), A(&["v :=", "return"]), F("( 0 when c else 1 )"), F(";")]),
     (Wrap::Decl, &[F("view v of r is a : in ;"), O("b , c : out ;"), O("d : view w ;"), F("end view"), O("v"), F(";")]),
+    (Wrap::Decl, &[F("view v of r is"), A(&["a : inout ;", "a : buffer ;", "a , b : linkage ;", "a : view ( w ) ;", "a : view w . x ;"]), O("z : in ;"), F("end view ;")]),
     (Wrap::Iface, &[F("signal x :"), A(&["view v", "view ( v )", "view v of r", "view ( v ) of r"]), O("; y : t")]),
     (Wrap::Port, &[F("x :"), A(&["view v", "view ( w . v )", "view v of r"]), O(";")]),
     // ---- design units
